@@ -117,7 +117,7 @@ class ReportPartValuesList(AbstractReportPart):
 class MetricReportPart(ReportPartValuesList):
     MetricState = cp.ContainerListProperty(
         msg.MetricState,
-        value_class=AbstractContextStateContainer,
+        value_class=AbstractMetricStateContainer,
         cls_getter=get_state_container_class,
         ns_helper=default_ns_helper,
     )
@@ -579,7 +579,7 @@ class GetDescriptorResponse(AbstractGetResponse):
     Descriptor = cp.ContainerListProperty(
         msg.Descriptor,
         value_class=AbstractDescriptorContainer,
-        cls_getter=get_state_container_class,
+        cls_getter=get_descriptor_container_class,
         ns_helper=default_ns_helper,
     )
     _props = ('Descriptor',)
